@@ -1,4 +1,5 @@
 // Positive controls for the C07 rules whose expected count on the library is zero.
+#include <algorithm>
 #include <cassert>
 #include <vector>
 namespace coloquinte {
@@ -35,6 +36,29 @@ struct Costs {
       if ((rows[i] == 0) != (r[i] == 0)) throw 1;
     }
   }
+  // DZ: a dimension that may be zero becomes a divisor (directly, and through a call argument after a minimum)
+  std::vector<int> dims;
+  int perUnit(int i, int total) const { return total / dims[i]; }
+  int split(int total, int size) const { return total / size; }
+  int smallest(int total) const {
+    int m = 1 << 30;
+    for (int d : dims) m = std::min(m, d);
+    return split(total, 3 * m);
+  }
+  // not DZ: the minimum is taken over positive dimensions only
+  int smallestPositive(int total) const {
+    int m = 1 << 30;
+    for (int d : dims) {
+      if (d > 0) m = std::min(m, d);
+    }
+    return total / m;
+  }
+  // DE: `rowSum` memoises sumRows(); setRows() re-derives it, appendRow() does not, and consistent() reads both
+  long long rowSum = 0;
+  long long sumRows() const { long long r = 0; for (int v : rows) r += v; return r; }
+  void setRows(const std::vector<int> &r) { rows = r; rowSum = sumRows(); }
+  void appendRow(int v) { rows.push_back(v); }
+  bool consistent() const { return rowSum == sumRows(); }
   // E2: loop step that can be zero
   int stride(int nb) const {
     int s = 0;
